@@ -257,7 +257,7 @@ class Evaluator:
             return Term.atom(node.id)
         if self.fold is not None and isinstance(node, (ast.Subscript, ast.Attribute, ast.Call)):
             names = {n.id for n in ast.walk(node) if isinstance(n, ast.Name)}
-            if not (names & set(self.env)) and not (names & self.this_names):
+            if (getattr(self.fold, "smart", False) or not (names & set(self.env))) and not (names & self.this_names):
                 try:
                     v = self.fold(node)
                     if isinstance(v, bool):
